@@ -1,0 +1,10 @@
+//go:build verif
+
+package tls
+
+// VerifFingerprintMarshal exposes (*ClientFingerprintConfiguration).marshal:
+// the ClientHello bytes a client sends for this fingerprint configuration.
+// Verification hook; add-only.
+func VerifFingerprintMarshal(c *ClientFingerprintConfiguration, config *Config) ([]byte, error) {
+	return c.marshal(config)
+}
